@@ -393,7 +393,9 @@ def write_evidence(ctx, mod, proof, res, violations, extra=None):
         "property_id": ctx.prop,
         "tier": ctx.tier,
         "seed": ctx.seed,
-        "level": "proof",
+        # a run whose proofs did not all check does not claim the proof level for itself (Review F6): what it did was
+        # the exploration of the deep search; the run ends in a VIOLATION line anyway
+        "level": "proof" if proof["ok"] else "exploration",
         "coverage": cov,
         "assumptions": list(getattr(mod, "ASSUMPTIONS", [])),
         "wall_s": round(time.time() - ctx.t0, 2),
